@@ -21,7 +21,9 @@ RULE = ("Cases name one of the seven functions of chempy/kinetics/integrated.py,
         "initial concentration.  'initial': the function is called with t = 0 and exact rationals (sympy backend), the "
         "result must be exactly the initial concentration.  'backends': numpy (name, module, default; scalar and array "
         "t), math (name, module) at binary-float parameters against the sympy backend evaluated exactly at the same "
-        "binary-float point.  'backend_types': the same comparison with the *type* of every parameter drawn "
+        "binary-float point; every array evaluation of a case uses one and the same ndarray (twice per backend) and the "
+        "array arguments must be unchanged after each call.  'late_times': the same at 30..10000 characteristic times "
+        "(binary_irrev_cstr <= 300).  'backend_types': the same comparison with the *type* of every parameter drawn "
         "independently (or one type for all): Python int, numpy.int64, 0-d int64 array for integral values, float, "
         "numpy.float64, 0-d float64 array, fractions.Fraction for any value; time as float, numpy.float64 or int; "
         "parameter sets are integral (1..100, so every type applies) or the general rationals.  Non-trivial = non-zero "
@@ -30,7 +32,9 @@ ASSUMPTIONS = ["sympy differentiation (diff) and lambdify->mpmath evaluation at 
                "identity in t and the parameters is decided by evaluation at generated rational points "
                "(|residual| <= 1e-30 * sum of |terms|), not by a symbolic proof",
                "backend agreement is judged to 1e-9 relative to the sum of the concentration inputs (the terms the "
-               "closed forms add and subtract), for times up to 8 characteristic times (no exp overflow region)",
+               "closed forms add and subtract), for times up to 8 characteristic times, and at 30..10000 characteristic times for "
+               "the functions that evaluate finitely there on the unchanged tree (binary_irrev_cstr: exp(+fv*t) overflows for "
+               "fv*t > 709.78 - OverflowError with math, nan with numpy - so it is judged up to 300 characteristic times only)",
                "parameter types ('backend_types'): the domain is what the unchanged tree accepts for all seven functions "
                "with every backend it is combined with - int, numpy.int64, numpy.float64, float, 0-d int64/float64 "
                "arrays with numpy/math/sympy; Fraction with math and sympy only (numpy ufuncs reject Fraction objects: "
@@ -448,12 +452,35 @@ def check_backends(case, ctx):
             row.append(float(re))
         ref.append(row)
 
+    # One time array and one set of parameter objects for the whole case, as a caller fitting a curve has them: every
+    # array evaluation gets the *same* ndarray (twice per backend: 'array', 'array_again'), and after each call the
+    # array arguments (t, 0-d array parameters) must still hold what they held before.
+    t_arr = np.array(tsf)
+    t_snap = t_arr.copy()
+    pv_snap = {k: v.copy() for k, v in pv.items() if isinstance(v, np.ndarray)}
+
+    def arguments_intact(bname, mode):
+        ok = True
+        if t_arr.dtype != t_snap.dtype or t_arr.shape != t_snap.shape or not np.array_equal(t_arr, t_snap):
+            ctx.fail("argument_modified_in_place:%s" % fn, argument="t", backend=bname, mode=mode,
+                     before=[float(x) for x in t_snap], after=[float(x) for x in np.ravel(t_arr)][:8])
+            ok = False
+        for k, snap in pv_snap.items():
+            v = pv[k]
+            if not isinstance(v, np.ndarray) or v.dtype != snap.dtype or v.shape != snap.shape or not np.array_equal(v, snap):
+                ctx.fail("argument_modified_in_place:%s" % fn, argument=k, backend=bname, mode=mode, before=float(snap),
+                         after=repr(v)[:60], types=tdesc)
+                ok = False
+        return ok
+
     if SPECS[fn]["backend"]:
         # the sympy backend fed with floats (sympy Float arithmetic, 15 digits).  Above the CSTR steady state sympy's
         # atanh runs through the complex branch and leaves an imaginary rounding residue (~1e-17) on a mathematically
         # real value: judged with the same tolerance as the value itself
         for tf, tv, rrow in zip(tsf, tsv, ref):
             ys = sut(call, fn, tv, pv, backend="sympy")
+            if not arguments_intact("sympy", "scalar"):
+                return
             if is_err(ys):
                 ctx.fail("sympy_backend_raises:" + fn, error=repr(ys), arguments="float" if not types else "typed",
                          types=tdesc, t_type=t_type)
@@ -472,9 +499,10 @@ def check_backends(case, ctx):
                     return
     backends = BACKENDS if SPECS[fn]["backend"] else ["plain"]
     for bname in backends:
-        modes = ["scalar"] if _family(bname) == "math" else ["scalar", "array"]
+        modes = ["scalar"] if _family(bname) == "math" else ["scalar", "array", "array_again"]
         if bname == "plain":
-            modes = ["scalar", "array"]
+            modes = ["scalar", "array", "array_again"]
+        t_arr[...] = t_snap           # (a previous backend's damage is reported once, not inherited)
         if has_fraction and (bname == "plain" or _family(bname) == "numpy"):
             # numpy ufuncs do not take Fraction objects (np.sqrt(Fraction(..)), np.exp of an object array): Fraction
             # parameters are in the domain of the math and sympy backends only (see ASSUMPTIONS)
@@ -483,8 +511,8 @@ def check_backends(case, ctx):
         for mode in modes:
             with warnings.catch_warnings():
                 warnings.simplefilter("ignore")       # numpy RuntimeWarnings (invalid value in arctanh) are judged via the nan
-                if mode == "array":
-                    got = sut(call, fn, np.array(tsf), pv, backend=_backend_obj(bname) if bname != "plain" else None)
+                if mode.startswith("array"):
+                    got = sut(call, fn, t_arr, pv, backend=_backend_obj(bname) if bname != "plain" else None)
                     rows = got
                     if not is_err(got):
                         try:
@@ -506,6 +534,7 @@ def check_backends(case, ctx):
                             ctx.fail("value_not_a_real_number:%s" % fn, backend=bname, error=repr(e)[:200])
                             return
             fam = _family(bname) if bname != "plain" else "numpy"
+            arguments_intact(bname, mode)
             if is_err(rows):
                 how = "%s: %s" % (rows.type, rows.msg[:60])
                 ctx.fail("real_backend_fails", fn=fn, backend=fam, spec=bname, mode=mode, regime=regime, how=how,
@@ -519,7 +548,8 @@ def check_backends(case, ctx):
                 continue
             for i in range(len(tsf)):
                 for j in range(nout):
-                    # double-precision evaluation at a point inside 8 characteristic times (no exp overflow).  The
+                    # double-precision evaluation at a point inside 8 characteristic times (no exp overflow) or, for
+                    # 'late_times', where every exponential has decayed (measured there: <= 3e-15*S).  The
                     # closed forms add and subtract terms of the size of the concentration inputs (sum S); the worst
                     # conditioned form is binary_rev, whose numerator terms are ~ kb/(kf*S) times larger than the
                     # result (<= 3.4e5 on the domain), i.e. an error <= ~4e-11*S; measured over the corners
@@ -623,6 +653,25 @@ def backend_cases(draw):
     return {"fn": fn, "p": {k: fstr(v) for k, v in p.items()}, "ts": [fstr(t) for t in ts]}
 
 
+# late times: tau = (t - t0) * characteristic rate.  Probed on the unchanged tree (700 parameter sets, numpy and math,
+# tau in LATE_TAUS): six functions evaluate finitely and within 3e-15 * S of the 40-digit reference everywhere (they only
+# contain decaying exponentials, which underflow to 0).  binary_irrev_cstr multiplies exp(+fv*t) by exp(-fv*t): for
+# fv*t > 709.78 the math backend raises OverflowError and numpy gives inf*0 = nan - today, on the unchanged tree - so for
+# that function only tau <= 300 is generated (fv*t <= tau, because the characteristic rate is >= fv).
+LATE_TAUS = [30, 300, 3000, 10000]
+LATE_TAU_MAX = {"binary_irrev_cstr": 300}
+
+
+@st.composite
+def late_cases(draw):
+    fn, p = draw(param_sets())
+    lam = rate_scale(fn, p)
+    taus = [x for x in LATE_TAUS if x <= LATE_TAU_MAX.get(fn, LATE_TAUS[-1])]
+    picked = draw(st.lists(st.sampled_from(taus), min_size=1, max_size=3, unique=True))
+    t0 = p.get("t0", Fraction(0))
+    return {"fn": fn, "p": {k: fstr(v) for k, v in p.items()}, "ts": [fstr(t0)] + [fstr(t0 + Fraction(x) / lam) for x in picked]}
+
+
 ipos = st.integers(1, 100)        # integral parameter value: every parameter type can carry it
 TYPE_ORDER = ["float", "int", "np.int64", "np.float64", "0d_int64", "0d_float64", "Fraction"]   # first = the plain case
 
@@ -703,6 +752,11 @@ SUBCHECKS = [
              rule="numpy ('numpy', module, default None; scalar and array t) and math ('math', module) against the "
                   "sympy backend evaluated exactly (40 digits) at the same binary-float point; t = 0 and 1-3 times "
                   "within 8 characteristic times",
+             tolerances={"backend_value": "|got - ref| <= 1e-9 * (sum of concentration inputs [* (1+n) for 2A->nB])"}),
+    SubCheck("late_times", check_backends, strategy=late_cases(), quick=400, thorough=10000,
+             rule="'backends' at t = 0 and 1-3 late times tau in {30, 300, 3000, 10000} characteristic times (the reaction "
+                  "is complete, the value is the plateau / steady state); binary_irrev_cstr only tau <= 300 (it "
+                  "overflows beyond fv*t = 709.78 on the unchanged tree)",
              tolerances={"backend_value": "|got - ref| <= 1e-9 * (sum of concentration inputs [* (1+n) for 2A->nB])"}),
     SubCheck("backend_types", check_backends, strategy=typed_backend_cases(), quick=800, thorough=20000,
              rule="'backends' with a type per parameter: int / numpy.int64 / 0-d int64 array (integral values), float / "
